@@ -133,32 +133,55 @@ def r2_eval(chk, fx):
         return None
     paths = A.Interp(fx, hook=hook2, crates=(AGENT,)).explore(EVAL_POL)
     ok, detail = bool(paths), None
-    for p in paths:
+    finals = [p for p in paths if p.end != "iter-end"]
+    iters = [p for p in paths if p.end == "iter-end"]
+    for p in finals:
         fs = A.fields_of(p.ret)
         m = fs.get("map")
         if p.end == "abort" or m is None:
-            ok, detail = False, "result %s" % A.vstr(p.ret)[:120]
-            continue
-        txt = A.vstr(m)
-        bad = [T.short(x[1], 2) for x in A.walk_value(m) if x[0] == "term" and T.short(x[1], 2) in DROPPING]
-        src = A.mentions(m, lambda x: x[0] == "field" and x[2] == "map" and "self" in A.vstr(x[1]))
-        # the mapping closure: evaluate it on a symbolic entry
-        maps = [x for x in A.walk_value(m) if x[0] == "term" and T.short(x[1], 2) in ("Iterator::map", "Iterator::filter_map", "Iterator::flat_map")]
-        one = len(maps) == 1 and T.short(maps[0][1], 2) == "Iterator::map"
-        entry_ok = False
-        if one:
-            it2 = A.Interp(fx, hook=hook2, crates=(AGENT,))
-            it2.trace, it2.assume, it2._script, it2._pos, it2._taken, it2._alts, it2._sym = [], {}, [], 0, [], [], 0
-            try:
-                r = it2.apply(maps[0][2][1], [("tuple", (("sym", "NAME"), ("sym", "CANDIDATE")))], {"sp": None}, 0)
-                entry_ok = r == ("tuple", (("sym", "NAME"), ("term", "EVAL", (("sym", "CANDIDATE"),)))) and not it2._alts
-            except Exception as ex:  # noqa
-                detail = "closure: %r" % ex
-        if bad or not src or not one or not entry_ok:
-            ok = False
-            detail = detail or "map = %s" % txt[:200]
+            ok, detail = False, "result %s" % (A.vstr(p.ret)[:120] if p.ret is not None else p.end)
+    def src_is_self_map(v):
+        return A.mentions(v, lambda x: x[0] == "field" and x[2] == "map" and "self" in A.vstr(x[1]))
+    if iters:
+        # loop form: every iteration over self.map inserts (name, evaluate(candidate)) of that very element into the result map
+        for p in iters:
+            ins = p.calls("HashMap::insert")
+            good = len(ins) == 1 and len(ins[0][2]) == 3
+            if good:
+                mp, k, v = ins[0][2]
+                el = k[1] if k[0] == "field" and k[2] == "0" else None
+                good = el is not None and el[0] == "term" and el[1] == "elem" and src_is_self_map(el) and v == ("term", "EVAL", (("field", el, "1"),))
+                good = good and not [x for x in A.walk_value(el) if x[0] == "term" and T.short(x[1], 2) in DROPPING]
+                good = good and all(A.fields_of(f.ret).get("map") == mp or A.vstr(A.fields_of(f.ret).get("map", ("unit",))) == A.vstr(mp) for f in finals if f.ret is not None)
+            if not good:
+                ok, detail = False, "an iteration over the candidates does not insert (name, evaluation) of its own element: %s" % [A.vstr(("tuple", c[2]))[:120] for c in ins]
+        early = [p for p in paths if p.early_loop_exit()]
+        if early:
+            ok, detail = False, "the loop over the candidates can be left before every candidate was evaluated (break / return inside the loop)"
+    else:
+        for p in finals:
+            m = A.fields_of(p.ret).get("map") if p.ret is not None else None
+            if m is None:
+                continue
+            txt = A.vstr(m)
+            bad = [T.short(x[1], 2) for x in A.walk_value(m) if x[0] == "term" and T.short(x[1], 2) in DROPPING]
+            maps = [x for x in A.walk_value(m) if x[0] == "term" and T.short(x[1], 2) in ("Iterator::map", "Iterator::filter_map", "Iterator::flat_map")]
+            one = len(maps) == 1 and T.short(maps[0][1], 2) == "Iterator::map"
+            entry_ok = False
+            if one:
+                it2 = A.Interp(fx, hook=hook2, crates=(AGENT,))
+                it2.trace, it2.assume, it2._script, it2._pos, it2._taken, it2._alts, it2._sym, it2._occ = [], {}, [], 0, [], [], 0, {}
+                try:
+                    r = it2.apply(maps[0][2][1], [("tuple", (("sym", "NAME"), ("sym", "CANDIDATE")))], {"sp": None}, 0)
+                    entry_ok = r == ("tuple", (("sym", "NAME"), ("term", "EVAL", (("sym", "CANDIDATE"),)))) and not it2._alts
+                except Exception as ex:  # noqa
+                    detail = "closure: %r" % ex
+            if bad or not src_is_self_map(m) or not one or not entry_ok:
+                ok = False
+                detail = detail or "map = %s" % txt[:200]
     chk.instance("C03/R2", "Policies::evaluate maps every candidate one-to-one: (name, candidate) -> (name, candidate.evaluate(..)), no early exit, nothing dropped",
                  t2["def"], loc_of(t2.get("sp")), holds=ok, key="C03/R2 Policies::evaluate chain", detail=detail)
+    chk.extra["policies_evaluate_form"] = "loop" if iters else "iterator chain"
 
 
 DROPPING = ("Iterator::filter", "Iterator::take", "Iterator::skip", "Iterator::take_while", "Iterator::skip_while", "Iterator::step_by", "Iterator::nth",
